@@ -34,6 +34,10 @@ def gen_cases(fam, tier):
                 p = list(base)
                 p[k] = lit
                 yield {'ent': ename, 'form': form, 'attr': k, 'owner': owner, 'text': sp.file([smodel.inst_text(10, E, p)]), 'complex': False}
+        # two unset attributes in one instance (the severity of the instance is the worst of its attributes, not the last)
+        if len(pa) == 2 and not any(r for _, _, r in pa):
+            for l0, l1 in (('$', '$'), ('$', ''), ('', '$')):
+                yield {'ent': ename, 'form': 'both', 'attr': -2, 'text': sp.file([smodel.inst_text(10, E, [l0, l1])]), 'complex': False}
         # the same inside the parts of an externally mapped instance
         order = fam.ancestors_ordered(ename)
         if len(order) > 1:
@@ -86,6 +90,13 @@ def judge(fam, case, res, strict):
     sev = res['esev']
     if case['form'] == 'none':
         return [] if sev >= 2 else [('base-rejected/%s' % case['ent'], 'conforming base rejected (covered by C01)')]
+    if case['form'] == 'both':
+        attrs = [a for _, a, _ in fam.p21_attrs(case['ent'])]
+        must_fail = [a for a in attrs if not a.optional and (strict or fam.cat(a.type) not in FILLER)]
+        if must_fail and sev > 1:
+            return [('two-unset-accepted/%s/%s' % (mode, '+'.join(a.type.key() for a in attrs)),
+                     'both attributes unset, %s is required and cannot be substituted: read with severity %d in %s mode' % (must_fail[0].name, sev, mode))]
+        return []
     a = attr_of(fam, case)
     cat = fam.cat(a.type)
     tk = a.type.key()
@@ -168,14 +179,16 @@ def main():
                 continue
             chk.count(states=1, transitions=1)
             dress = None
-            if c['form'] not in ('none', '$', 'empty'):
+            if c['form'] not in ('none', '$', 'empty', 'both'):
                 dress = c['form']
                 c = dict(c, form='empty' if dress.startswith('empty') else '$', dress=dress)
             v = judge(fam, c, r, c['strict'])
             if dress:
                 same = plain.get((c['ent'], c['attr'], c.get('part'), c['complex'], c['strict'], c['form']), set())
                 v = [(k if k in same else '%s/lex:%s' % (k, dress), w + ('' if k in same else ' [only with the marker written %r]' % dress)) for k, w in v]
-            if c['form'] != 'none':
+            if c['form'] == 'both':
+                chk.cls('%s/two-unset' % ('strict' if c['strict'] else 'lenient'))
+            elif c['form'] != 'none':
                 a = attr_of(fam, c)
                 chk.cls('%s/%s/%s' % ('strict' if c['strict'] else 'lenient', 'optional' if a.optional else 'required', fam.cat(a.type)))
             if not v:
